@@ -134,25 +134,6 @@ func init() {
 		"fmt.Println": func(fr *frame, a []value) value { return tuple{0, iface{}} },
 		"fmt.Printf":  func(fr *frame, a []value) value { return tuple{0, iface{}} },
 		"errors.New":  errorsNew,
-		"strconv.Itoa": func(fr *frame, a []value) value { return strconv.Itoa(int(concOnly(a[0], "strconv.Itoa"))) },
-		"strconv.FormatUint": func(fr *frame, a []value) value {
-			return strconv.FormatUint(uint64(concOnly(a[0], "strconv.FormatUint")), int(asInt64(a[1])))
-		},
-		"strconv.FormatInt": func(fr *frame, a []value) value {
-			return strconv.FormatInt(concOnly(a[0], "strconv.FormatInt"), int(asInt64(a[1])))
-		},
-		"strconv.ParseUint": func(fr *frame, a []value) value {
-			v, err := strconv.ParseUint(concStr(a[0], "strconv.ParseUint"), int(asInt64(a[1])), int(asInt64(a[2])))
-			return tuple{v, fr.in.hostErr(err)}
-		},
-		"strconv.ParseInt": func(fr *frame, a []value) value {
-			v, err := strconv.ParseInt(concStr(a[0], "strconv.ParseInt"), int(asInt64(a[1])), int(asInt64(a[2])))
-			return tuple{v, fr.in.hostErr(err)}
-		},
-		"strconv.Atoi": func(fr *frame, a []value) value {
-			v, err := strconv.Atoi(concStr(a[0], "strconv.Atoi"))
-			return tuple{v, fr.in.hostErr(err)}
-		},
 		"strconv.ParseFloat": func(fr *frame, a []value) value {
 			v, err := strconv.ParseFloat(concStr(a[0], "strconv.ParseFloat"), int(asInt64(a[1])))
 			return tuple{v, fr.in.hostErr(err)}
